@@ -181,8 +181,17 @@ def scenario(w):
         for g in opts:
             for k, v in opts[g].items():
                 conf['%s/%s' % (g, k)] = _copy(v)
-        supplied = {g: _norm(conf[g]) for g in GROUPS}
+        supplied = {g: _norm(conf[g]) for g in GROUPS}      # snapshot of what this configuration was given
         call_kw = None
+        if ch.flag('decoy_config', 1, 3):
+            # a second, unrelated configuration object is created and edited before the first one is used
+            other = S.get_config(ch.choice('decoy.variant', ['sift', 'mask_sift', 'ensemble_sift']))
+            other['imf_opts/sd_thresh'] = 0.4321
+            other['imf_opts/stop_method'] = 'sd'
+            other['envelope_opts/interp_method'] = 'splrep' if (opts.get('envelope_opts') or {}).get('interp_method') else 'mono_pchip'
+            other['extrema_opts/pad_width'] = 5
+            other['extrema_opts/mag_pad_opts'] = {'mode': 'minimum'}
+            w.probe('decoy_config_used')
 
     desc = {'variant': vname, 'route': route, 'signal': sdesc, 'options': _norm(opts), 'fixed': _norm(fixed), 'pool': dict(cfg)}
     w.sample = desc
